@@ -191,8 +191,11 @@ class Report:
             "wall_s": round(time.time() - self.t0, 2),
             "violations": len(self.violations),
         }
-        os.makedirs(os.path.join(VERIF, "evidence"), exist_ok=True)
-        with open(os.path.join(VERIF, "evidence", f"{self.pid}.json"), "w") as fh:
+        # evidence describes runs against /repo only; a run pointed elsewhere (VALIDA_SRC: seeded changes) keeps its
+        # record under out/ so that it never replaces the evidence of the tree under verification
+        evdir = os.path.join(VERIF, "evidence") if SRC == "/repo" else os.path.join(VERIF, "out", "evidence-other-tree")
+        os.makedirs(evdir, exist_ok=True)
+        with open(os.path.join(evdir, f"{self.pid}.json"), "w") as fh:
             json.dump(ev, fh, indent=1, default=str)
         print(f"[{self.pid}] tier={self.tier} seed={self.seed} states={self.states} transitions={self.transitions} "
               f"traces={self.traces} evaluations={self.evaluations} violations={len(self.violations)} "
